@@ -595,6 +595,8 @@ func ruleTabCLI(c *Ctx, r *Rep) {
 		pos         token.Pos
 	}
 	var defs []flagDef
+	var selfRows []*flagRow // the rows of a table that holds definition and bit side by side
+	var selfPtr *types.Var
 	for _, fn := range c.Funcs {
 		if !strings.HasSuffix(fn.Pkg.Pkg.Path(), "/cli") {
 			continue
@@ -608,7 +610,17 @@ func ruleTabCLI(c *Ctx, r *Rep) {
 			k2, ok2 := a[2].(*ssa.Const)
 			k3, ok3 := a[3].(*ssa.Const)
 			if !ok1 || !ok2 || !ok3 {
-				r.Undecided("shape:flag-definition", c.Pos(ci.Pos()), "non-constant flag definition")
+				// one table for everything: rows {name, shorthand, default, bit, pointer}; the flags are defined in a loop
+				// over the rows from the row's own fields, the pointer the definition answers is kept in the row
+				if rows, ptrFld, why := c.flagRowTable(ci.(*ssa.Call)); why == "" {
+					selfRows = rows
+					selfPtr = ptrFld
+					for _, rw := range rows {
+						defs = append(defs, flagDef{name: rw.name, short: rw.short, def: rw.def, field: rw.key, pos: ci.Pos()})
+					}
+				} else {
+					r.Undecided("shape:flag-definition", c.Pos(ci.Pos()), "non-constant flag definition: "+why)
+				}
 				continue
 			}
 			d := flagDef{name: constant.StringVal(k1.Value), short: constant.StringVal(k2.Value), def: constant.BoolVal(k3.Value), pos: ci.Pos()}
@@ -638,6 +650,18 @@ func ruleTabCLI(c *Ctx, r *Rep) {
 				if !ok && c.isModNamed("UpdateStrategy")(bin.Type()) {
 					// the table of {flag pointer, bit} walked in a loop: the bit ORed is the bit field of an element, under
 					// the test of the pointer field of the same element
+					if done, why := c.flagRowBits(bin, b, selfRows, selfPtr); done {
+						if why != "" {
+							r.Undecided("shape:strategy-bit", c.Pos(bin.Pos()), why)
+							continue
+						}
+						for _, rw := range selfRows {
+							bitOf[rw.key] = append(bitOf[rw.key], rw.bit)
+							tableBits[rw.bit] = true
+						}
+						tableOrs[bin] = true
+						continue
+					}
 					if rows, why := c.flagBitTable(bin, b); why == "" {
 						for fld, bit := range rows {
 							bitOf[fld] = append(bitOf[fld], bit)
@@ -812,6 +836,197 @@ func ruleTabCLI(c *Ctx, r *Rep) {
 func isBoolType(t types.Type) bool {
 	b, ok := t.Underlying().(*types.Basic)
 	return ok && b.Kind() == types.Bool
+}
+
+// ---- one table of rows {name, shorthand, default, bit, pointer} ---------------------------------------------------
+
+type flagRow struct {
+	name, short string
+	def         bool
+	bit         int64
+	key         *types.Var // stands for "the pointer of this row" where rules key by the field a flag is kept in
+	consts      map[int]*ssa.Const
+}
+
+// rowElem: the table element a field is read from or written to (an element address, a loaded element, or the local a
+// range loop copies each element into), the field's index, and the element's struct type.
+func rowElem(v ssa.Value) (elem ssa.Value, field int, st *types.Struct, ok bool) {
+	switch x := v.(type) {
+	case *ssa.UnOp:
+		if fa, isFa := x.X.(*ssa.FieldAddr); isFa && x.Op == token.MUL {
+			if pt, isP := fa.X.Type().Underlying().(*types.Pointer); isP {
+				st, _ = pt.Elem().Underlying().(*types.Struct)
+			}
+			return fa.X, fa.Field, st, st != nil
+		}
+	case *ssa.Field:
+		st, _ = x.X.Type().Underlying().(*types.Struct)
+		return x.X, x.Field, st, st != nil
+	case *ssa.FieldAddr:
+		if pt, isP := x.X.Type().Underlying().(*types.Pointer); isP {
+			st, _ = pt.Elem().Underlying().(*types.Struct)
+		}
+		return x.X, x.Field, st, st != nil
+	}
+	return nil, 0, nil, false
+}
+
+// flagRowTable: BoolP(e.name, e.short, e.def, …) whose answer is stored into a pointer field of the same element e, e an
+// element of a list of structs. The rows are read off the one literal list of that struct type in the package.
+func (c *Ctx) flagRowTable(call *ssa.Call) ([]*flagRow, *types.Var, string) {
+	a := call.Call.Args
+	var elem ssa.Value
+	var st *types.Struct
+	idx := [3]int{}
+	for i := 0; i < 3; i++ {
+		e, f, s2, ok := rowElem(a[i+1])
+		if !ok {
+			return nil, nil, "name, shorthand and default are not fields of one table entry"
+		}
+		if elem == nil {
+			elem, st = e, s2
+		} else if e != elem {
+			return nil, nil, "name, shorthand and default are read from different entries"
+		}
+		idx[i] = f
+	}
+	// the answer is kept in the same entry
+	ptrField := -1
+	for _, ref := range *call.Referrers() {
+		if sto, isSt := ref.(*ssa.Store); isSt && sto.Val == ssa.Value(call) {
+			if e, f, _, ok := rowElem(sto.Addr); ok && e == elem {
+				ptrField = f
+			}
+		}
+	}
+	if ptrField < 0 {
+		return nil, nil, "the pointer the definition answers is not kept in the entry it was defined from"
+	}
+	// the one literal list of this entry type in the package
+	var literal *ssa.Alloc
+	for _, fn := range c.Funcs {
+		if fn.Pkg != call.Parent().Pkg {
+			continue
+		}
+		for _, b := range fn.Blocks {
+			for _, ins := range b.Instrs {
+				al, isAl := ins.(*ssa.Alloc)
+				if !isAl {
+					continue
+				}
+				at, isArr := al.Type().Underlying().(*types.Pointer).Elem().Underlying().(*types.Array)
+				if !isArr || !types.Identical(at.Elem().Underlying(), st) {
+					continue
+				}
+				if literal != nil {
+					return nil, nil, "more than one literal list of table entries"
+				}
+				literal = al
+			}
+		}
+	}
+	if literal == nil {
+		return nil, nil, "no literal list of table entries"
+	}
+	rows := map[int64]*flagRow{}
+	for _, ref := range *literal.Referrers() {
+		ia, isIa := ref.(*ssa.IndexAddr)
+		if !isIa {
+			continue
+		}
+		k, isK := ia.Index.(*ssa.Const)
+		if !isK {
+			return nil, nil, "an entry of the table is stored at a computed index"
+		}
+		rw := rows[k.Int64()]
+		if rw == nil {
+			rw = &flagRow{consts: map[int]*ssa.Const{}}
+			rows[k.Int64()] = rw
+		}
+		for _, r2 := range *ia.Referrers() {
+			fa, isFa := r2.(*ssa.FieldAddr)
+			if !isFa {
+				if _, isSt := r2.(*ssa.Store); isSt {
+					return nil, nil, "an entry of the table is stored as a whole"
+				}
+				continue
+			}
+			for _, r3 := range *fa.Referrers() {
+				if sto, isSt := r3.(*ssa.Store); isSt && sto.Addr == ssa.Value(fa) {
+					kc, isConst := sto.Val.(*ssa.Const)
+					if !isConst {
+						return nil, nil, "a field of a table entry is not a constant"
+					}
+					rw.consts[fa.Field] = kc
+				}
+			}
+		}
+	}
+	at := literal.Type().Underlying().(*types.Pointer).Elem().Underlying().(*types.Array)
+	if int64(len(rows)) != at.Len() {
+		return nil, nil, "not every entry of the table is filled field by field"
+	}
+	var out []*flagRow
+	for i := int64(0); i < at.Len(); i++ {
+		rw := rows[i]
+		str := func(f int) string {
+			if k := rw.consts[f]; k != nil && k.Value != nil && k.Value.Kind() == constant.String {
+				return constant.StringVal(k.Value)
+			}
+			return ""
+		}
+		rw.name, rw.short = str(idx[0]), str(idx[1])
+		if k := rw.consts[idx[2]]; k != nil && k.Value != nil && k.Value.Kind() == constant.Bool {
+			rw.def = constant.BoolVal(k.Value)
+		}
+		rw.key = types.NewVar(token.NoPos, nil, "row:"+rw.name, st.Field(ptrField).Type())
+		out = append(out, rw)
+	}
+	return out, st.Field(ptrField), ""
+}
+
+// flagRowBits: `word |= e.bit` under `if *e.ptr`, e an entry of the table flagRowTable read, ptr the field the
+// definitions are kept in: fills in the rows' bits. done is false when the OR has nothing to do with that table.
+func (c *Ctx) flagRowBits(or *ssa.BinOp, b *ssa.BasicBlock, rows []*flagRow, ptr *types.Var) (bool, string) {
+	if len(rows) == 0 || ptr == nil {
+		return false, ""
+	}
+	elem, bitField, st, ok := rowElem(or.Y)
+	if !ok {
+		return false, ""
+	}
+	ptrIdx := -1
+	for i := 0; i < st.NumFields(); i++ {
+		if st.Field(i) == ptr {
+			ptrIdx = i
+		}
+	}
+	if ptrIdx < 0 {
+		return false, ""
+	}
+	tested := false
+	for _, g := range guardsOf(b) {
+		if !g.Truth {
+			continue
+		}
+		if u, isLoad := g.Cond.(*ssa.UnOp); isLoad && u.Op == token.MUL {
+			if e2, f2, _, ok2 := rowElem(u.X); ok2 && e2 == elem && f2 == ptrIdx {
+				tested = true
+			}
+		}
+	}
+	if !tested {
+		return true, "a strategy bit read from a table entry is ORed without a test of that entry's own flag pointer"
+	}
+	for _, rw := range rows {
+		k := rw.consts[bitField]
+		if k == nil || k.Value == nil {
+			rw.bit = 0
+			continue
+		}
+		rw.bit = k.Int64()
+	}
+	return true, ""
 }
 
 // flagBitTable: `word |= e.bit` under `if *e.ptr`, e ranging over a list of {pointer, bit} entries that is built as a
